@@ -1,3 +1,4 @@
 /* sinks_ghost.h — ghost records named by contracts/sinks.spec (definitions: harness/sinks.c) */
 extern struct { size_t calls; int ch; FILE *stream; _Bool all_same; } FPC;
 extern size_t SINK_COUNT0;
+extern struct { size_t calls; const void *stream; long ch; _Bool all_same; } OSP;
